@@ -519,7 +519,8 @@ type c16Pipe struct {
 	Delays      []int    `json:"handler_delays_ms"`
 	BreakAt     int      `json:"break_after_bytes"`
 	CallsAfter  int      `json:"calls_after"`
-	Refuse      []uint64 `json:"handler_refuses_terms"` // requests answered with a response and an error
+	Refuse      []uint64 `json:"handler_refuses_terms"`    // requests answered with a response and an error
+	IdleBefore  []int    `json:"idle_before_ms,omitempty"` // per request: the pipeline sits idle this long before the request is sent (longer than the transport time-out: 2 s)
 	Detail      string   `json:"detail,omitempty"`
 	refuse      map[uint64]bool
 }
@@ -573,6 +574,19 @@ func c16RunPipeline(pc *c16Pipe) (detail string) {
 	}()
 	sent := 0
 	for i := 0; i < pc.Depth; i++ {
+		if i < len(pc.IdleBefore) && pc.IdleBefore[i] > 0 {
+			// everything sent so far is answered before the idle period begins
+			for w := 0; w < 20000; w++ {
+				mu.Lock()
+				n := len(completed)
+				mu.Unlock()
+				if n >= sent {
+					break
+				}
+				time.Sleep(time.Millisecond)
+			}
+			time.Sleep(time.Duration(pc.IdleBefore[i]) * time.Millisecond)
+		}
 		req := &raft.AppendEntriesRequest{Term: uint64(1000 + i), PrevLogEntry: uint64(i), Entries: []*raft.Log{{Index: uint64(i), Data: c15Content(i, 30)}}}
 		f, err := p.AppendEntries(req, &raft.AppendEntriesResponse{})
 		if err != nil {
@@ -664,6 +678,10 @@ func TestC16Pipeline(t *testing.T) {
 			pc.BreakAt = rapid.IntRange(1, 400).Draw(rt, "breakAfterBytes")
 		}
 		pc.CallsAfter = rapid.IntRange(1, 4).Draw(rt, "callsAfter")
+		if rapid.IntRange(0, 3).Draw(rt, "idle") == 0 {
+			pc.IdleBefore = make([]int, pc.Depth)
+			pc.IdleBefore[rapid.IntRange(0, pc.Depth-1).Draw(rt, "idleAt")] = rapid.SampledFrom([]int{500, 2500, 7000}).Draw(rt, "idleMs")
+		}
 		// requests the handler answers with a response AND an error (no network fault)
 		for i := 0; i < pc.Depth+pc.CallsAfter; i++ {
 			if rapid.IntRange(0, 5).Draw(rt, "handlerErr") == 0 {
@@ -682,12 +700,12 @@ func TestC16Pipeline(t *testing.T) {
 		}
 		var detail string
 		sim.Bubble(t, func() { detail = c16RunPipeline(pc) })
-		r.Case(pc.Depth >= 2 && reordered, rep.Hash(pc.MaxInFlight, pc.Depth, fmt.Sprint(pc.Delays), pc.BreakAt, pc.CallsAfter, fmt.Sprint(pc.Refuse)), map[bool]string{true: "connection-fault", false: "no-fault"}[pc.BreakAt > 0], map[bool]string{true: "handler-error-then-more-traffic", false: "no-handler-error"}[len(pc.Refuse) > 0])
+		r.Case(pc.Depth >= 2 && reordered, rep.Hash(pc.MaxInFlight, pc.Depth, fmt.Sprint(pc.Delays), pc.BreakAt, pc.CallsAfter, fmt.Sprint(pc.Refuse), fmt.Sprint(pc.IdleBefore)), map[bool]string{true: "connection-fault", false: "no-fault"}[pc.BreakAt > 0], map[bool]string{true: "handler-error-then-more-traffic", false: "no-handler-error"}[len(pc.Refuse) > 0], map[bool]string{true: "idle-pipeline-reused", false: "no-idle-period"}[len(pc.IdleBefore) > 0])
 		if pc.Depth >= 2 && reordered && r.WantSample() {
 			r.Sample(map[string]any{"max_in_flight": pc.MaxInFlight, "depth": pc.Depth, "handler_delays_ms": pc.Delays, "break_after_bytes": pc.BreakAt, "calls_after": pc.CallsAfter, "handler_refuses": pc.Refuse})
 		}
 		if detail != "" {
-			detail = fmt.Sprintf("maxInFlight=%d depth=%d delays=%v breakAfterBytes=%d callsAfter=%d refuses=%v: %s", pc.MaxInFlight, pc.Depth, pc.Delays, pc.BreakAt, pc.CallsAfter, pc.Refuse, detail)
+			detail = fmt.Sprintf("maxInFlight=%d depth=%d delays=%v breakAfterBytes=%d callsAfter=%d refuses=%v idleBefore=%v: %s", pc.MaxInFlight, pc.Depth, pc.Delays, pc.BreakAt, pc.CallsAfter, pc.Refuse, pc.IdleBefore, detail)
 			pc.Detail = detail
 			path := fmt.Sprintf("%s/C16-pipeline-%d.json", rep.ReplayDir(), os.Getpid())
 			writeJSON(path, pc)
